@@ -186,6 +186,94 @@ theorem clean_err_unchanged (me : Nat) (delegates : Option (List Nat)) (nss rem 
     · simp only [Prod.mk.injEq] at h; exact h.2.symm
     · simp at h
 
+/-! ### Repeated cleaning -/
+
+theorem localSigrefs_filter (me : Nat) (p : Ns → Bool) (nss : List Ns)
+    (hp : ∀ ns ∈ nss, (ns.valid && ns.id == me) = true → p ns = true) :
+    localSigrefs me (nss.filter p) = localSigrefs me nss := by
+  induction nss with
+  | nil => rfl
+  | cons ns rest ih =>
+    have ih' := ih (fun x hx => hp x (List.mem_cons_of_mem _ hx))
+    by_cases h : (ns.valid && ns.id == me) = true
+    · have hpn := hp ns (List.mem_cons_self ..) h
+      rw [List.filter_cons_of_pos hpn]
+      simp only [localSigrefs, h, if_true]
+    · by_cases hpn : p ns = true
+      · rw [List.filter_cons_of_pos hpn]
+        simp only [localSigrefs, h, Bool.false_eq_true, if_false]
+        exact ih'
+      · rw [List.filter_cons_of_neg hpn]
+        simp only [localSigrefs, h, Bool.false_eq_true, if_false]
+        exact ih'
+
+theorem toDelete_filter_nil (me : Nat) (ds : List Nat) (p : Ns → Bool) (nss : List Ns)
+    (hp : ∀ ns ∈ nss, ns.valid = true → ns.sig ≠ .missing → ns.id ≠ me → ns.id ∉ ds → p ns = false) :
+    toDelete me ds (nss.filter p) = [] := by
+  induction nss with
+  | nil => rfl
+  | cons ns rest ih =>
+    have ih' := ih (fun x hx => hp x (List.mem_cons_of_mem _ hx))
+    by_cases hpn : p ns = true
+    · rw [List.filter_cons_of_pos hpn]
+      unfold toDelete
+      by_cases h1 : ns.sig = .missing
+      · simp [h1, ih']
+      · by_cases h2 : ns.valid = true
+        · by_cases h3 : ns.id = me
+          · simp [h1, h2, h3, ih']
+          · by_cases h4 : ns.id ∈ ds
+            · simp [h1, h2, h3, h4, ih']
+            · have := hp ns (List.mem_cons_self ..) h2 h1 h3 h4
+              rw [this] at hpn
+              exact absurd hpn (by simp)
+        · simp [h1, h2, ih']
+    · rw [List.filter_cons_of_neg hpn]
+      exact ih'
+
+/-- **Cleaning is idempotent**: after a successful `clean`, cleaning again with the same delegates
+deletes nothing and keeps every remaining namespace — in particular those of the local node and of the
+delegates survive any number of cleanups. -/
+theorem clean_idempotent (me : Nat) (ds : List Nat) (nss : List Ns) (del : List Nat) (rem : List Ns)
+    (h : clean me (some ds) nss = (.cleaned del, rem)) :
+    clean me (some ds) rem = (.cleaned [], rem) := by
+  unfold clean at h
+  split at h
+  · simp at h
+  · rename_i hloc
+    simp only [Prod.mk.injEq, Out.cleaned.injEq] at h
+    obtain ⟨rfl, rfl⟩ := h
+    have hl : localSigrefs me (nss.filter fun ns => !(ns.valid && (toDelete me ds nss).contains ns.id))
+        = some true := by
+      rw [localSigrefs_filter, hloc]
+      intro ns hns hv
+      simp only [Bool.and_eq_true, beq_iff_eq] at hv
+      have hnot : ns.id ∉ toDelete me ds nss := by
+        intro hm
+        obtain ⟨_, _, _, _, _, h4, _⟩ := (mem_toDelete me ds nss ns.id).mp hm
+        exact h4 hv.2
+      simp [hv.1, hnot]
+    have ht : toDelete me ds (nss.filter fun ns => !(ns.valid && (toDelete me ds nss).contains ns.id))
+        = [] := by
+      apply toDelete_filter_nil
+      intro ns hns h2 h1 h3 h4
+      have hm : ns.id ∈ toDelete me ds nss :=
+        (mem_toDelete me ds nss ns.id).mpr ⟨ns, hns, rfl, h2, h1, h3, h4⟩
+      simp [h2, hm]
+    unfold clean
+    rw [hl]
+    simp only [ht]
+    congr 1
+    apply List.filter_eq_self.mpr
+    intro ns _
+    simp
+  · split at h <;> simp at h
+
+example :
+    clean 0 (some [0, 1]) [⟨0, true, .valid⟩, ⟨1, true, .valid⟩, ⟨4, true, .missing⟩, ⟨2, false, .missing⟩] =
+    (.cleaned [], [⟨0, true, .valid⟩, ⟨1, true, .valid⟩, ⟨4, true, .missing⟩, ⟨2, false, .missing⟩]) := by
+  decide
+
 /-! ### Non-vacuity: local node 0, delegates {0, 1}; peers 2, 3 with sigrefs, peer 4 without, a stray
 directory named after peer 2. -/
 
